@@ -1,9 +1,24 @@
 #!/bin/bash
-# Re-runs every seeded defect of /verif/seeded against the checks recorded in its meta.json (quick tier) and refreshes the recorded outcome.
-# usage: tools/seed_regress.sh [name-prefix]      e.g. tools/seed_regress.sh C08
+# Re-runs the seeded defects of /verif/seeded (quick tier) and refreshes the outcome recorded in their meta.json.
+# For each seed the check of its own property is run if it caught the seed before, otherwise the first check that did
+# (FULL=1: every check recorded in the meta).   usage: tools/seed_regress.sh [name-prefix ...]     e.g. tools/seed_regress.sh C08 C09-1
 cd "$(dirname "$0")/.."
-for d in seeded/${1:-C}*/; do
+pats=("$@"); [ ${#pats[@]} -eq 0 ] && pats=(C)
+for pat in "${pats[@]}"; do
+for d in seeded/${pat}*/; do
   name=$(basename $d)
-  ids=$(/venv/bin/python -c "import json,sys; m=json.load(open('$d/meta.json')); print(' '.join(sorted(m.get('confirmed_by_harness_author',{}).get('checks',{}).keys())) or m.get('property',''))")
+  ids=$(FULL=$FULL /venv/bin/python - "$d" <<'PY'
+import json, os, sys
+m = json.load(open(sys.argv[1] + '/meta.json'))
+ch = m.get('confirmed_by_harness_author', {}).get('checks', {})
+prop = m.get('property', os.path.basename(sys.argv[1].rstrip('/'))[:3])
+if os.environ.get('FULL'):
+    print(' '.join(sorted(ch)) or prop)
+else:
+    caught = [k for k, v in sorted(ch.items()) if v.get('verdict') == 'violated']
+    print(prop if prop in caught or not caught else caught[0])
+PY
+)
   tools/seed.py $d $name quick $ids 2>&1 | grep -v conda
+done
 done
